@@ -65,7 +65,7 @@ PROPS = {
         assumptions=["validators stay bonded (checkOrchestratorValidatorInSet); pruning (cutoff 1000 nonces) is not reached"],
     ),
     "C13": dict(
-        lean_modules=["PalomaModel.Props.C13", "PalomaModel.Props.Consts.Bridge", "PalomaModel.Props.Consts.C13"], gen=["Atomicity.lean", "ConstTable.lean"],
+        lean_modules=["PalomaModel.Props.C13", "PalomaModel.Props.Consts.Bridge", "PalomaModel.Props.Consts.C13", "PalomaModel.Props.Translated.C13"], gen=["Atomicity.lean", "ConstTable.lean", "Translated.lean"],
         harness_test="TestBridge", env={"VERIF_PROP": "C13"},
         extra_tests=[{"test": "TestC13Prune", "dir": "C13B", "n_quick": 400, "n_thorough": 4000}],
         n_quick=120, n_thorough=1500, thorough_seeds=8, timeout_quick=900,
